@@ -32,9 +32,34 @@ def main():
     ap.add_argument("worktree")
     ap.add_argument("--checks", default=None)
     ap.add_argument("--skip-suite", action="store_true")
+    ap.add_argument("--checks-only", action="store_true", help="the change was confirmed earlier and its worktree is gone: only run more checks against seeded/<name>/patch.diff")
     ap.add_argument("--demo-cmd", default="g++ -std=c++17 -O1 -DNDEBUG -I{SRC} {DEMO} -o {OUT}")
     ap.add_argument("--needs", default="")
     a = ap.parse_args()
+    if a.checks_only:
+        dst = os.path.join(VERIF, "seeded", a.name)
+        meta = json.load(open(os.path.join(dst, "meta.json")))
+        rc, out = sh("git -C /repo status --porcelain -- src")
+        if out.strip():
+            print("refusing: /repo has local changes")
+            sys.exit(5)
+        rc, out = sh("git -C /repo apply %s" % os.path.join(dst, "patch.diff"))
+        if rc != 0:
+            print("patch does not apply to /repo", out)
+            sys.exit(6)
+        try:
+            for cid in a.checks.split(","):
+                t0 = time.time()
+                rc, out = sh("python3 tools/check.py %s --tier quick" % cid, cwd=VERIF)
+                viol = [ln for ln in out.split("\n") if ln.startswith("VIOLATION")]
+                meta["checks_against_patched_repo"][cid] = {"exit": rc, "violations": viol[:4], "first_message": next((ln.strip()[:300] for ln in out.split("\n") if ln.startswith("  ")), ""), "wall_s": round(time.time() - t0)}
+                print("check %s: exit %d, %d VIOLATION line(s)" % (cid, rc, len(viol)))
+        finally:
+            sh("git -C /repo checkout -- .")
+        meta["caught_by"] = sorted(c for c, v in meta["checks_against_patched_repo"].items() if v["violations"])
+        json.dump(meta, open(os.path.join(dst, "meta.json"), "w"), indent=1)
+        print("caught by", meta["caught_by"])
+        return
     W = a.worktree
     seed = os.path.join(W, "seed")
     patch = os.path.join(seed, "patch.diff")
